@@ -473,6 +473,16 @@ def verdictReg (prop : String) (cfg : Cfg) (kind : StoreKind) (uv : UvCfg) (orig
     else if prop = "C09" then (match c09_register cfg req pre o with | none => "ok" | some f => "fail:" ++ f)
     else "na"
 
+/-! ### C13 — during authentication "no credentials" is credential-not-found -/
+
+/-- an authentication never ends with `AuthenticatorError(0x2E)`: that status is reported as
+credential-not-found (which byte the authenticator answered is decided by the model comparison) -/
+def c13_authenticate (o : CObs AuthOk) : Option String :=
+  match o.res with
+  | .panic => some "panic"
+  | .err name => if name = "AuthenticatorError(46)" then some "no-credentials-passed-through-as-authenticator-error" else none
+  | .ok _ => none
+
 def verdictAuth (prop : String) (cfg : Cfg) (_kind : StoreKind) (uv : UvCfg) (origin : RpId.Origin) (originStr : String)
     (req : AuthReq) (mode : ClientDataMode) (pre : List PkSnap) (preItems : List Passkey) (impl : String) : String :=
   match parseAuthObs impl with
@@ -481,6 +491,7 @@ def verdictAuth (prop : String) (cfg : Cfg) (_kind : StoreKind) (uv : UvCfg) (or
     if prop = "C11" then (match c11_assert pre o with | none => "ok" | some f => "fail:" ++ f)
     else if prop = "C03" then (match c03_authenticate uv origin originStr req mode preItems o with | none => "ok" | some f => "fail:" ++ f)
     else if prop = "C09" then (match c09_authenticate cfg req preItems o with | none => "ok" | some f => "fail:" ++ f)
+    else if prop = "C13" then (match c13_authenticate o with | none => "ok" | some f => "fail:" ++ f)
     else "na"
 
 end PasskeyVerif.Spec.Client
